@@ -38,6 +38,9 @@ import (
 //	          Q<rank><skip><limit> the same on `rank >= n`   X<b> even = true|false   Z<b><k> even = .. and rank >= k   Y<n> ext = "x<n>"
 //	          (even, ext: externally computed symbols, NewBoolFuncSymbol / NewStringFuncSymbol + AddEntitySymbol)
 //	          V<aa><bb> / W<aa><bb>: even / ext .Eval for row a<aa> held, .Eval for row a<bb>, then both values decoded
+//	          round 3:  M<k><v> QueryIds `<nested map key k> = "s<v>"` (c18MapKeys: tags.site.name, tags.site.zone, tags.owner.name, tags.a.b.c,
+//	          attrs.a.b.c, attrs.a.x.c, attrs.site.name, attrs.owner.name; tags registered with AddMapSymbol under ext/meta, attrs under ext/meta/deep)
+//	          I<ka><kb><id> A := GetSymbol(key ka), B := GetSymbol(key kb), then A.Eval and B.Eval on row a<id>, decoded
 //	cr <readers> <iters> <seed> <kind,kind,..> <tx> <tx> ...
 //	    the transactions are committed first (serially); then the harness evaluates, in one read transaction, every query of the
 //	    listed kinds (token s.0, the serial baseline); then <readers> goroutines, released together, each run <iters> read
@@ -46,7 +49,7 @@ import (
 //	    verdict is the Lean driver's: every recorded answer = model on the tagged version.
 //	race <scenario> <goroutines> <iters>       concurrent use of the helpers; prints "done" (or "wrong:<what>");
 //	    the interesting output is the Go race detector's report when the harness is built with -race
-//	    scenarios: parse getsymbol errors query extsym emptyfilter sharedquery
+//	    scenarios: parse getsymbol errors query extsym emptyfilter mapsym sharedquery
 func init() {
 	register("c18", &propHarness{gen: c18Gen, exec: c18Exec})
 	logrus.SetLevel(logrus.PanicLevel)
@@ -76,6 +79,40 @@ func (c18ThingStrategy) PersistEntity(e *c18Thing, ctx *boltz.PersistContext) {
 	ctx.SetString("name", e.Name)
 	ctx.SetInt64("rank", e.Rank)
 	ctx.SetStringList("roles", e.Roles)
+	// nested map data, a function of the rank (so the model needs no further field): see c18MapKeys
+	for k, mk := range c18MapKeys {
+		parts := strings.Split(mk.name, ".")
+		path := append(append([]string{}, mk.prefix...), parts[:len(parts)-1]...)
+		ctx.Bucket.GetOrCreatePath(path...).SetString(parts[len(parts)-1], fmt.Sprintf("s%d", c18MapVal(k, int(e.Rank))), nil)
+	}
+}
+
+// nested elements of the two map symbols: tags lives under ext/meta (2-bucket prefix), attrs under ext/meta/deep (3)
+var c18MapKeys = []struct {
+	name   string
+	prefix []string
+}{
+	{"tags.site.name", []string{"ext", "meta"}}, {"tags.site.zone", []string{"ext", "meta"}}, {"tags.owner.name", []string{"ext", "meta"}},
+	{"tags.a.b.c", []string{"ext", "meta"}}, {"attrs.a.b.c", []string{"ext", "meta", "deep"}}, {"attrs.a.x.c", []string{"ext", "meta", "deep"}},
+	{"attrs.site.name", []string{"ext", "meta", "deep"}}, {"attrs.owner.name", []string{"ext", "meta", "deep"}},
+}
+
+func c18MapVal(k, r int) int {
+	switch k {
+	case 0, 7:
+		return r % 3
+	case 1, 6:
+		return (r + 1) % 3
+	case 2:
+		return (r + 2) % 3
+	case 3:
+		return r % 2
+	case 4:
+		return (r + 1) % 2
+	case 5:
+		return (2 * r) % 3
+	}
+	return 9
 }
 
 type c18Group struct {
@@ -162,6 +199,8 @@ func c18Open() (*c18Env, error) {
 	e.idxRoles = e.things.AddSetIndex(symRoles)
 	symGroups := e.things.AddFkSetSymbol("groups", e.groups)
 
+	e.things.AddMapSymbol("tags", ast.NodeTypeAnyType, "tags", "ext", "meta")
+	e.things.AddMapSymbol("attrs", ast.NodeTypeAnyType, "attrs", "ext", "meta", "deep")
 	e.even = boltz.NewBoolFuncSymbol(e.things, "even", func(id string) bool {
 		n := c18IdNum(id)
 		return n >= 0 && n%2 == 0
@@ -336,6 +375,34 @@ func (e *c18Env) observe(tx *bbolt.Tx, q string) string {
 		return query(fmt.Sprintf(`even = %v and rank >= %d`, arg/10 == 1, arg%10))
 	case "Y":
 		return query(fmt.Sprintf(`ext = "x%d"`, arg))
+	case "M":
+		if arg/10 >= len(c18MapKeys) {
+			return "bad-q"
+		}
+		return query(fmt.Sprintf(`%s = "s%d"`, c18MapKeys[arg/10].name, arg%10))
+	case "I":
+		// resolve symbol A, resolve symbol B, then evaluate A (and B): the schedule "reader 1 resolves its symbol, reader 2
+		// resolves another nested key of the same map, reader 1 evaluates a row", played in one goroutine
+		ka, kb, id := arg/1000, arg/100%10, arg%100
+		if ka >= len(c18MapKeys) || kb >= len(c18MapKeys) {
+			return "bad-q"
+		}
+		symA := e.things.GetSymbol(c18MapKeys[ka].name)
+		symB := e.things.GetSymbol(c18MapKeys[kb].name)
+		if symA == nil || symB == nil {
+			return "err"
+		}
+		row := []byte(fmt.Sprintf("a%d", id))
+		dec := func(t boltz.FieldType, v []byte) string {
+			sv := boltz.FieldToString(t, v)
+			if sv == nil || *sv == "" {
+				return "9"
+			}
+			return strings.TrimPrefix(*sv, "s")
+		}
+		ta, va := symA.Eval(tx, row)
+		tb, vb := symB.Eval(tx, row)
+		return dec(ta, va) + "." + dec(tb, vb)
 	case "V", "W":
 		// two evaluations outstanding before either value is decoded (the schedule "reader 1 evaluates row a, reader 2
 		// evaluates row b, reader 1 decodes"; the external symbols do not look at the transaction)
@@ -406,7 +473,7 @@ func (e *c18Env) observe(tx *bbolt.Tx, q string) string {
 	return "bad-q"
 }
 
-var c18QKinds = []string{"N", "K", "R", "G", "H", "T", "iN", "iR", "lG", "lM", "E", "A", "P", "Q", "X", "Z", "Y", "V", "W"}
+var c18QKinds = []string{"N", "K", "R", "G", "H", "T", "iN", "iR", "lG", "lM", "E", "A", "P", "Q", "X", "Z", "Y", "V", "W", "M", "M", "I"}
 
 var c18MvIds = []int{0, 1, 2, 3, 4, 5}
 
@@ -456,6 +523,26 @@ func c18Args(kind string, ids []int) []int {
 		for b := 0; b < 2; b++ {
 			for k := 0; k < 6; k++ {
 				r = append(r, b*10+k)
+			}
+		}
+	case "M":
+		for k := range c18MapKeys {
+			for v := 0; v < 3; v++ {
+				r = append(r, k*10+v)
+			}
+		}
+	case "I":
+		sub := ids
+		if len(sub) > 6 {
+			sub = sub[:6]
+		}
+		for ka := range c18MapKeys {
+			for kb := range c18MapKeys {
+				if ka != kb {
+					for _, id := range sub {
+						r = append(r, ka*1000+kb*100+id)
+					}
+				}
 			}
 		}
 	case "V", "W":
@@ -742,7 +829,8 @@ var c18ParseQueries = []string{
 }
 
 var c18SymbolNames = []string{"id", "name", "rank", "roles", "groups", "groups.label", "groups.id", "groups.members",
-	"groups.members.name", "groups.members.roles", "nosuch", "groups.nosuch", "name.x"}
+	"groups.members.name", "groups.members.roles", "nosuch", "groups.nosuch", "name.x",
+	"tags.site.name", "tags.owner.name", "tags.a.b.c", "attrs.a.b.c", "attrs.a.x.c", "attrs.site.name"}
 
 func c18Race(scenario string, goroutines, iters int) string {
 	e, err := c18Open()
@@ -799,9 +887,9 @@ func c18Race(scenario string, goroutines, iters int) string {
 	}
 	// serial answers of the queries the read-only scenarios use (data is fixed: no writer in those scenarios)
 	extExpected := map[string]string{}
-	if scenario == "extsym" || scenario == "emptyfilter" {
+	if scenario == "extsym" || scenario == "emptyfilter" || scenario == "mapsym" {
 		_ = e.db.View(func(tx *bbolt.Tx) error {
-			for _, k := range []string{"X", "Y", "Z", "P", "A"} {
+			for _, k := range []string{"X", "Y", "Z", "P", "A", "M"} {
 				for _, a := range c18Args(k, c18MvIds) {
 					// P / A answers computed from a query that is never paged by anybody: rank >= 0 matches every row
 					q := k + strconv.Itoa(a)
@@ -867,6 +955,15 @@ func c18Race(scenario string, goroutines, iters int) string {
 							if a := e.observe(tx, q); a != extExpected[q] {
 								wrong.Store("extsym:" + q + "=" + a + "_serial:" + extExpected[q])
 							}
+						}
+						return nil
+					})
+				case "mapsym":
+					// every reader filters on another nested key of the two map symbols: resolution and evaluation interleave
+					_ = e.db.View(func(tx *bbolt.Tx) error {
+						q := "M" + strconv.Itoa(((g+i)%len(c18MapKeys))*10+i%3)
+						if a := e.observe(tx, q); a != extExpected[q] {
+							wrong.Store("mapsym:" + q + "=" + a + "_serial:" + extExpected[q])
 						}
 						return nil
 					})
@@ -958,7 +1055,7 @@ func c18GenTx(r *rng, gen []int) string {
 
 // the query kinds the readers of one cr case concentrate on (collisions need the same symbol / object at the same moment)
 var c18Focus = [][]string{
-	{"X", "Z"}, {"X", "Y", "V"}, {"A", "P"}, {"A", "P", "Q", "K"}, {"Y", "W", "Z"}, {"R", "H", "G"}, {"T", "K", "Q"}, {"N", "iN", "E", "lG", "lM", "iR"},
+	{"M"}, {"M", "I", "K"}, {"X", "Z"}, {"X", "Y", "V"}, {"A", "P"}, {"A", "P", "Q", "K"}, {"Y", "W", "Z"}, {"R", "H", "G"}, {"T", "K", "Q"}, {"N", "iN", "E", "lG", "lM", "iR"},
 }
 
 func c18GenCr(r *rng, focus []string, iters int) string {
@@ -1034,7 +1131,7 @@ func c18Gen(tier string, seed uint64, out *bufio.Writer) {
 	if tier == "thorough" {
 		it = 3000
 	}
-	for _, sc := range []string{"parse", "getsymbol", "errors", "query", "extsym", "emptyfilter"} {
+	for _, sc := range []string{"parse", "getsymbol", "errors", "query", "extsym", "emptyfilter", "mapsym"} {
 		fmt.Fprintf(out, "race %s %d %d\n", sc, 6, it)
 	}
 }
